@@ -162,6 +162,7 @@ func checkC06RT(c CaseC06RT) error {
 	target := bufs[len(bufs)-1]
 	pristine := append([]byte(nil), target...)
 	var first, firstNeutral string
+	var held *gtfs.Realtime // the first result, looked at again after every later call
 	for i := 0; i < c06Repeats; i++ {
 		r, err := gtfs.ParseRealtime(target, c.Ext.options(c.Zone))
 		if err != nil {
@@ -170,6 +171,7 @@ func checkC06RT(c CaseC06RT) error {
 		js := rgen.JS(rgen.Normalize(r))
 		if i == 0 {
 			first = js
+			held = r
 			firstNeutral = c06EnvNeutral(r)
 			if c.Model {
 				if err := rtModel(c.Ext, c.Zone, c.Msgs[len(c.Msgs)-1], rgen.Normalize(r)); err != nil {
@@ -214,6 +216,9 @@ func checkC06RT(c CaseC06RT) error {
 	if js := rgen.JS(rgen.Normalize(r)); js != first {
 		return vt.FailSig("history-dependent", "extension %+v: parsing the same bytes twice through one options object gives different results: %s", c.Ext, rgen.FirstDiff(js, first))
 	}
+	if js := rgen.JS(rgen.Normalize(held)); js != first {
+		return vt.FailSig("retained-result-altered", "extension %+v: later ParseRealtime calls changed the result of an earlier call that the caller still holds: %s", c.Ext, rgen.FirstDiff(js, first))
+	}
 	writeDigest("TestC06Realtime", vt.Fingerprint(c), vt.Fingerprint(first))
 	return nil
 }
@@ -226,6 +231,7 @@ func checkC06Static(c CaseC06Static) error {
 	pristine := append([]byte(nil), b...)
 	opts := gtfs.ParseStaticOptions{InheritWheelchairBoarding: c.Inherit}
 	var first string
+	var held *gtfs.Static // the first result, looked at again after every later call
 	for i := 0; i < c06Repeats; i++ {
 		s, err := gtfs.ParseStatic(b, opts)
 		if err != nil {
@@ -237,6 +243,7 @@ func checkC06Static(c CaseC06Static) error {
 		js := sgen.JS(sgen.Normalize(s))
 		if i == 0 {
 			first = js
+			held = s
 			// what a parse of these bytes returns whatever came before it is what the reference model says (C01 checks the
 			// model against single parses): a result that was shaped by an earlier case of this process differs from it
 			want := sgen.Expect(c.Feed, sgen.Options{InheritWheelchairBoarding: c.Inherit}).SortedServices()
@@ -270,6 +277,9 @@ func checkC06Static(c CaseC06Static) error {
 	}
 	if js := sgen.JS(sgen.Normalize(s)); js != first {
 		return vt.FailSig("history-dependent", "after %d earlier parses the result differs: %s", len(c.History), rgen.FirstDiff(js, first))
+	}
+	if js := sgen.JS(sgen.Normalize(held)); js != first {
+		return vt.FailSig("retained-result-altered", "later ParseStatic calls changed the result of an earlier call that the caller still holds: %s", rgen.FirstDiff(js, first))
 	}
 	writeDigest("TestC06Static", vt.Fingerprint(c), vt.Fingerprint(first))
 	return nil
